@@ -66,6 +66,10 @@ type Script struct {
 	// HTTP1 (http front): the request carries the headers an HTTP/1.1 client adds about its own connection
 	// (browsers send Connection: keep-alive); they describe the hop, not the call
 	HTTP1 string `json:"http1"`
+	// Chunks (http front): sizes of the successive reads the request body is delivered in (none: one read);
+	// HTTPProto: the request body travels as protobuf (length-delimited for streams), the replies stay JSON
+	Chunks    []int `json:"chunks"`
+	HTTPProto bool  `json:"http_proto"`
 }
 
 type backendLog struct {
@@ -351,7 +355,21 @@ func runHTTP(s Script) (clientView, int) {
 	if (s.Shape == "unary" || s.Shape == "server") && len(msgs) > 1 {
 		msgs = msgs[:1]
 	}
+	streaming := s.Shape == "client" || s.Shape == "bidi"
+	if s.HTTPProto {
+		hdr.Set("Content-Type", "application/protobuf")
+		hdr.Set("Accept", "application/json")
+	}
 	for _, raw := range msgs {
+		if s.HTTPProto {
+			if streaming {
+				var sb bytes.Buffer
+				larking.CodecProto{}.WriteNext(&sb, raw)
+				raw = sb.Bytes()
+			}
+			body = append(body, raw...)
+			continue
+		}
 		m := dynamicpb.NewMessage(world.MsgDesc("un.All"))
 		proto.Unmarshal(raw, m)
 		b, _ := protojson.Marshal(m)
@@ -361,7 +379,28 @@ func runHTTP(s Script) (clientView, int) {
 	if s.Shape == "client" || s.Shape == "bidi" {
 		cl = -1
 	}
-	res := drive.Serve(mux, drive.Request("POST", methods[s.Shape], "", hdr, bytes.NewReader(body), cl))
+	var rd io.Reader = bytes.NewReader(body)
+	if len(s.Chunks) > 0 && len(body) > 0 {
+		rd = &drive.ScriptReader{Data: body, Chunks: append([]int{}, s.Chunks...)}
+	}
+	// like the gRPC front, the call gets callTimeout: a real server cancels the request context when the client
+	// gives up, and a call that is still running then counts as hung
+	ctx, cancel := context.WithTimeout(context.Background(), callTimeout)
+	defer cancel()
+	req := drive.Request("POST", methods[s.Shape], "", hdr, rd, cl).WithContext(ctx)
+	done := make(chan drive.Result, 1)
+	go func() { done <- drive.Serve(mux, req) }()
+	var res drive.Result
+	select {
+	case res = <-done:
+	case <-time.After(callTimeout + 5*time.Second):
+		v.Hang = true // not even the cancelled context released it
+		return v, 0
+	}
+	if ctx.Err() == context.DeadlineExceeded {
+		v.Hang = true
+		return v, 0
+	}
 	if res.Panic != nil {
 		v.Err = "panic: " + fmt.Sprint(res.Panic)
 		return v, 0
@@ -549,6 +588,10 @@ func genScript(t *rapid.T) Script {
 		s.MD = append(s.MD, kv)
 	}
 	if s.Front == "http" {
+		s.HTTPProto = rapid.IntRange(0, 2).Draw(t, "httpProto") == 0
+		for i, n := 0, rapid.IntRange(0, 4).Draw(t, "nchunks"); i < n; i++ {
+			s.Chunks = append(s.Chunks, rapid.IntRange(1, 40).Draw(t, "chunk"))
+		}
 		s.HTTP1 = rapid.SampledFrom([]string{"", "", "", "keep-alive", "keep-alive-timeout", "close", "proxy"}).Draw(t, "http1")
 	}
 	s.PingPong = rapid.Bool().Draw(t, "pingpong")
